@@ -232,7 +232,7 @@ class Signal(object):
             each increment of the value doubles the record length using zero padding.
         :return:
         """
-        from scipy.signal import butter, filtfilt
+        from scipy.signal import butter, sosfiltfilt
         if isinstance(cut_off, list) or isinstance(cut_off, tuple) or isinstance(cut_off, np.ndarray):
             pass
         else:
@@ -285,8 +285,9 @@ class Signal(object):
             f_len = org_len
 
         wp = cut_off / nyq
-        b, a = butter(filter_order, wp, btype=filter_type)
-        mote = filtfilt(b, a, mote)
+        sos = butter(filter_order, wp, btype=filter_type, output='sos')
+        n_coef = filter_order * (2 if filter_type == 'band' else 1) + 1
+        mote = sosfiltfilt(sos, mote, padlen=3 * n_coef)  # same padding as filtfilt(b, a)
         # removing extra zeros from gibbs effect
         mote = mote[s_len:f_len]  # TODO: don't use -1
 
